@@ -2,9 +2,10 @@
 Helper lemmas for C18 (`resolve_links`, `sorted(pdf_names)`).  Core Lean only.
 -/
 import WpModel.Model.Outline
+import WpModel.Lemmas.C18PdfString
 
 namespace Wp.C18
-open Wp Wp.Outline
+open Wp Wp.Outline Wp.PdfStr
 
 /-! ### first loop: named destinations -/
 
@@ -234,12 +235,15 @@ theorem StrictSorted.tail {x : List Nat × Nat} {l : List (List Nat × Nat)} (h 
   | nil => trivial
   | cons y rest => exact h.2
 
+/-- A `(name, destination)` pair as a PDF reader sees it: the key bytes and the destination. -/
+def withKey (e : List Nat × Nat) : List Nat × Nat := (keyBytes e.1, e.2)
+
 theorem insertName_perm (x : List Nat × Nat) (l : List (List Nat × Nat)) : (insertName x l).Perm (x :: l) := by
   induction l with
   | nil => simp [insertName]
   | cons y ys ih =>
     simp only [insertName]
-    by_cases h : nameLt y.1 x.1 = true
+    by_cases h : nameLt (keyBytes y.1) (keyBytes x.1) = true
     · rw [if_pos h]
       exact (List.Perm.cons y ih).trans (List.Perm.swap x y ys)
     · rw [if_neg h]
@@ -251,33 +255,36 @@ theorem sortNames_perm (l : List (List Nat × Nat)) : (sortNames l).Perm l := by
     simp only [sortNames]
     exact (insertName_perm x (sortNames xs)).trans (List.Perm.cons x ih)
 
-theorem insertName_sorted (x : List Nat × Nat) (l : List (List Nat × Nat)) (hs : StrictSorted l)
-    (hne : ∀ y ∈ l, y.1 ≠ x.1) : StrictSorted (insertName x l) := by
+theorem insertName_sorted (x : List Nat × Nat) (l : List (List Nat × Nat)) (hs : StrictSorted (l.map withKey))
+    (hne : ∀ y ∈ l, keyBytes y.1 ≠ keyBytes x.1) : StrictSorted ((insertName x l).map withKey) := by
   induction l with
   | nil => simp [insertName, StrictSorted]
   | cons y ys ih =>
     simp only [insertName]
-    by_cases h : nameLt y.1 x.1 = true
+    by_cases h : nameLt (keyBytes y.1) (keyBytes x.1) = true
     · rw [if_pos h]
       have hrec := ih hs.tail (fun z hz => hne z (List.mem_cons_of_mem _ hz))
       -- the head of `insertName x ys` is `x` or the head of `ys`
       cases ys with
-      | nil => simp only [insertName, StrictSorted]; exact ⟨h, trivial⟩
+      | nil => simp only [insertName, List.map_cons, List.map_nil, StrictSorted]; exact ⟨h, trivial⟩
       | cons z zs =>
         simp only [insertName] at hrec ⊢
-        by_cases h2 : nameLt z.1 x.1 = true
+        by_cases h2 : nameLt (keyBytes z.1) (keyBytes x.1) = true
         · rw [if_pos h2] at hrec ⊢
           exact ⟨hs.1, hrec⟩
         · rw [if_neg h2] at hrec ⊢
           exact ⟨h, hrec⟩
     · rw [if_neg h]
-      have hxy : nameLt x.1 y.1 = true := by
-        rcases nameLt_total x.1 y.1 (fun e => hne y (by simp) e.symm) with h1 | h1
+      have hxy : nameLt (keyBytes x.1) (keyBytes y.1) = true := by
+        rcases nameLt_total (keyBytes x.1) (keyBytes y.1) (fun e => hne y (by simp) e.symm) with h1 | h1
         · exact h1
         · exact absurd h1 h
       exact ⟨hxy, hs⟩
 
-theorem sortNames_sorted (l : List (List Nat × Nat)) (hnd : (l.map (·.1)).Nodup) : StrictSorted (sortNames l) := by
+/-- The array written by `generate_pdf` is strictly increasing in the byte order of its keys as soon as
+the keys are distinct. -/
+theorem sortNames_sorted (l : List (List Nat × Nat)) (hnd : (l.map (fun e => keyBytes e.1)).Nodup) :
+    StrictSorted ((sortNames l).map withKey) := by
   induction l with
   | nil => simp [sortNames, StrictSorted]
   | cons x xs ih =>
@@ -286,40 +293,42 @@ theorem sortNames_sorted (l : List (List Nat × Nat)) (hnd : (l.map (·.1)).Nodu
     apply insertName_sorted x _ (ih hnd.2)
     intro y hy e
     have : y ∈ xs := (sortNames_perm xs).mem_iff.mp hy
-    exact hnd.1 (by rw [← e]; exact List.mem_map_of_mem this)
+    exact hnd.1 (by rw [← e]; exact List.mem_map_of_mem (f := fun e => keyBytes e.1) this)
 
 /-! ### the keys as a PDF reader compares them -/
-
-/-- UTF-16BE code units of a code point, as bytes. -/
-def utf16be (c : Nat) : List Nat :=
-  if c < 65536 then [c / 256, c % 256]
-  else
-    let v := c - 65536
-    let hi := 55296 + v / 1024
-    let lo := 56320 + v % 1024
-    [hi / 256, hi % 256, lo / 256, lo % 256]
-
-/-- The bytes of the string object `pydyf.String(name)` denotes: the ASCII bytes when the name is
-ASCII, else a UTF-16BE string with byte-order mark.  ISO 32000-1 7.9.6 orders name-tree keys by
-these bytes. -/
-def keyBytes (name : List Nat) : List Nat :=
-  if name.all (· < 128) then name else 254 :: 255 :: name.flatMap utf16be
 
 theorem keyBytes_ascii (name : List Nat) (h : ∀ c ∈ name, c < 128) : keyBytes name = name := by
   unfold keyBytes
   rw [if_pos]
   simpa using h
 
-theorem StrictSorted_congr (l : List (List Nat × Nat)) (f : List Nat → List Nat)
-    (hf : ∀ e ∈ l, f e.1 = e.1) (hs : StrictSorted l) : StrictSorted (l.map (fun e => (f e.1, e.2))) := by
+/-- Distinct names are written as distinct keys (names are sequences of Unicode scalar values). -/
+theorem keyBytes_injective (a b : List Nat) (ha : ∀ c ∈ a, Scalar c) (hb : ∀ c ∈ b, Scalar c)
+    (h : keyBytes a = keyBytes b) : a = b := by
+  unfold keyBytes at h
+  by_cases h1 : a.all (· < 128) = true <;> by_cases h2 : b.all (· < 128) = true
+  · rw [if_pos h1, if_pos h2] at h; exact h
+  · rw [if_pos h1, if_neg h2] at h
+    rw [h] at h1; simp at h1
+  · rw [if_neg h1, if_pos h2] at h
+    rw [← h] at h2; simp at h2
+  · rw [if_neg h1, if_neg h2] at h
+    have e : a.flatMap Wp.PdfStr.utf16be = b.flatMap Wp.PdfStr.utf16be := by
+      injection h with _ h; injection h
+    have := utf16_roundtrip a ha
+    rw [e, utf16_roundtrip b hb] at this
+    exact (Option.some.inj this).symm
+
+theorem keys_nodup (l : List (List Nat × Nat)) (hnd : (l.map (·.1)).Nodup) (hs : ∀ e ∈ l, ∀ c ∈ e.1, Scalar c) :
+    (l.map (fun e => keyBytes e.1)).Nodup := by
   induction l with
-  | nil => trivial
+  | nil => simp
   | cons x xs ih =>
-    cases xs with
-    | nil => trivial
-    | cons y ys =>
-      simp only [List.map_cons, StrictSorted]
-      refine ⟨?_, ih (fun e he => hf e (List.mem_cons_of_mem _ he)) hs.2⟩
-      rw [hf x (by simp), hf y (by simp)]; exact hs.1
+    simp only [List.map_cons, List.nodup_cons] at hnd ⊢
+    refine ⟨?_, ih hnd.2 (fun e he => hs e (List.mem_cons_of_mem _ he))⟩
+    intro hm
+    obtain ⟨y, hy, e⟩ := List.mem_map.mp hm
+    have := keyBytes_injective y.1 x.1 (hs y (List.mem_cons_of_mem _ hy)) (hs x (by simp)) e
+    exact hnd.1 (by rw [← this]; exact List.mem_map_of_mem (f := (·.1)) hy)
 
 end Wp.C18
